@@ -247,6 +247,13 @@ func c10run(c *fw.Ctx, idx int) {
 		c10probeUnit("nilvars-letglobal", `{{ s := 0 }}{{ letg("leakvar", "LEAKED") }}[{{ leakvar }}]`, prog.Value{}, false),
 		c10probeUnit("nilvars-probe", `[{{ isset(leakvar) }}{{ isset(s) }}]`, prog.Value{}, false),
 		c10probeUnit("probe-block", `{{block cb(p="d")}}({{p}}{{yield content}}){{content}}default{{end}}`, prog.Value{}, false),
+		// executed with a nil VarMap: a failure below a range with variables / an if with assignment, in a template defining
+		// a block; then a template that yields a block of that name without defining it (always an error)
+		c10probeUnit("nilvars-fail-below-range-in-template-with-block", `{{block leakrow()}}LEAKED-BLOCK{{end}}|{{range i, r := ints(0, 2)}}{{if x := i; true}}{{ nosuchvarq }}{{end}}{{end}}`, prog.Value{}, false),
+		c10probeUnit("nilvars-yield-of-undefined-block", `summary:{{yield leakrow()}}`, prog.Value{}, false),
+		// map() makes a map of its own every time, whatever earlier executions wrote into theirs
+		c10probeUnit("map-literal-written-to", `{{ m := map() }}{{ m.title = "Secret plan" }}{{ m.n = 2 }}{{ len(m) }}:{{ m.title }}`, prog.Value{}, false),
+		c10probeUnit("map-literal-fresh", `{{ card := map() }}{{ len(card) }}:{{ isset(card.title) ? card.title : "untitled" }}|{{ len(map()) }}`, prog.Value{}, false),
 	)
 	// process-wide caches keyed by data type: a struct type minted for this case, with a field promoted through an
 	// embedded pointer that is nil in one unit and set in the other
@@ -478,7 +485,7 @@ func init() {
 	fw.Register(&fw.Property{
 		ID:        "C10",
 		Technique: "history monitor with fresh-state reference: every Execute of a history on one locked OS thread (pooled Runtime reused, GC off) must equal the same call executed on a freshly built and parsed Set right after the pools were drained; parsed templates hashed before/after",
-		Rule: "each case is one history of 8-32 Execute calls over a pool of 4-7 generated programs, each also through up to two other entry points on the same Set (failures anywhere: in yields with content, ranges, if-let, includes, try) plus 23 fixed templates: executions failing deep inside a block yielded with content below if-let and range (ending in an error, a function error, or a string panic that escapes Execute), try bodies, and probes exposing '.', 'yield content', isset() of names bound earlier, try/catch and block defaults, and a field promoted through an embedded pointer (nil in one unit, set in another) of a struct type minted per history, one parsed template with computed include names executed with four different variable bindings, an include of a template that does not parse, ranges left early by a return followed by ranges over empty and nil collections; " +
+		Rule: "each case is one history of 8-32 Execute calls over a pool of 4-7 generated programs, each also through up to two other entry points on the same Set (failures anywhere: in yields with content, ranges, if-let, includes, try) plus 27 fixed templates: executions failing deep inside a block yielded with content below if-let and range (ending in an error, a function error, or a string panic that escapes Execute), try bodies, and probes exposing '.', 'yield content', isset() of names bound earlier, try/catch and block defaults, and a field promoted through an embedded pointer (nil in one unit, set in another) of a struct type minted per history, one parsed template with computed include names executed with four different variable bindings, an include of a template that does not parse, ranges left early by a return followed by ranges over empty and nil collections; " +
 			"a fifth of the calls write into a writer that fails after 0-39 bytes; oracle: (bytes written, error text) of every call equals the fresh-state reference of the same (template, variables, writer) triple, obtained on a Set parsed from scratch after replacing the Runtime and ranger pools (hook VerifDrainPools; fallback two GC cycles); template trees hashed by reflection before and after; " +
 			"non-trivial = a failed execution immediately followed by another execution on the reused Runtime; distinct by (failing unit, writer failed, following unit); evidence records how often consecutive executions saw the same *Runtime",
 		Assumptions: []string{"generated programs are deterministic (single-entry maps, fresh channels and VarMaps per execution)", "not run under the race detector (it drops pool items at random)"},
